@@ -35,3 +35,82 @@ theorem goInsertionSort_perm (less : α → α → Bool) (l : List α) : (goInse
     exact List.perm_middle.symm
 
 end GoNeat
+
+namespace GoNeat
+variable {α : Type}
+
+/-- the two order facts insertion sort needs from a strict comparison -/
+structure LessLaws (less : α → α → Bool) : Prop where
+  asymm : ∀ a b, less a b = true → less b a = false
+  negTrans : ∀ a b c, less a b = false → less b c = false → less a c = false
+
+/-- sorted: no later element is strictly less than an earlier one -/
+def SortedBy (less : α → α → Bool) (l : List α) : Prop := l.Pairwise (fun a b => less b a = false)
+
+theorem goInsertionSort_go_sorted (less : α → α → Bool) (hl : LessLaws less) (x : α) (revLeft acc : List α)
+    (hs : SortedBy less (revLeft.reverse ++ acc)) (hacc : ∀ a ∈ acc, less x a = true) :
+    SortedBy less (goInsertionSort.go less x revLeft acc) := by
+  induction revLeft generalizing acc with
+  | nil =>
+    simp only [goInsertionSort.go, SortedBy, List.pairwise_cons]
+    refine ⟨fun a ha => hl.asymm _ _ (hacc a ha), ?_⟩
+    simpa [SortedBy] using hs
+  | cons y ys ih =>
+    unfold goInsertionSort.go
+    split
+    · rename_i hxy
+      apply ih
+      · simpa [SortedBy, List.append_assoc] using hs
+      · intro a ha
+        rcases List.mem_cons.mp ha with rfl | ha'
+        · exact hxy
+        · exact hacc a ha'
+    · rename_i hxy
+      have hxy' : less x y = false := by simpa using hxy
+      simp only [SortedBy, List.reverse_cons, List.append_assoc, List.singleton_append] at hs ⊢
+      rw [List.pairwise_append] at hs ⊢
+      obtain ⟨h1, h2, h3⟩ := hs
+      rw [List.pairwise_cons] at h2
+      refine ⟨h1, ?_, ?_⟩
+      · rw [List.pairwise_cons, List.pairwise_cons]
+        refine ⟨?_, ⟨fun a ha => hl.asymm _ _ (hacc a ha), h2.2⟩⟩
+        intro a ha
+        rcases List.mem_cons.mp ha with rfl | ha'
+        · exact hxy'
+        · exact h2.1 a ha'
+      · intro a ha b hb
+        rcases List.mem_cons.mp hb with rfl | hb'
+        · exact h3 a ha b (by simp)
+        · rcases List.mem_cons.mp hb' with rfl | hb''
+          · -- x against an element a before y: ¬ x < y and ¬ y < a give ¬ x < a
+            exact hl.negTrans _ _ _ hxy' (h3 a ha y (by simp))
+          · exact h3 a ha b (by simp [hb''])
+
+theorem goInsertionSort_sorted (less : α → α → Bool) (hl : LessLaws less) (l : List α) : SortedBy less (goInsertionSort less l) := by
+  unfold goInsertionSort
+  suffices h : ∀ (init : List α), SortedBy less init →
+      SortedBy less (l.foldl (fun sorted x => goInsertionSort.go less x sorted.reverse []) init) by
+    exact h [] (by simp [SortedBy])
+  induction l with
+  | nil => intro init h; simpa using h
+  | cons x xs ih =>
+    intro init h
+    simp only [List.foldl_cons]
+    apply ih
+    apply goInsertionSort_go_sorted less hl
+    · simpa using h
+    · intro a ha; cases ha
+
+/-- the head of the sorted list is minimal for `less`: nothing in the input is strictly less than it -/
+theorem goInsertionSort_head_min (less : α → α → Bool) (hl : LessLaws less) (l : List α) (top : α) (rest : List α)
+    (h : goInsertionSort less l = top :: rest) (hirr : less top top = false) : ∀ x ∈ l, less x top = false := by
+  intro x hx
+  have hs := goInsertionSort_sorted less hl l
+  rw [h] at hs
+  have hm : x ∈ top :: rest := h ▸ (goInsertionSort_perm less l).mem_iff.mpr hx
+  rcases List.mem_cons.mp hm with rfl | hm'
+  · exact hirr
+  · simp only [SortedBy, List.pairwise_cons] at hs
+    exact hs.1 x hm'
+
+end GoNeat
